@@ -14,6 +14,7 @@ CMDS = ['put', 'list', 'restore', 'empty', 'empty-days', 'rm']
 def config(tier):
     return {
         'level': 'exploration',
+        'real_sample': 6 if tier == 'quick' else 40,
         'cases': 3000 if tier == 'quick' else 40000,
         'budget_s': 50 if tier == 'quick' else 560,
         'floors': {'cases': 150, 'insecure_cmd_runs': 400,
